@@ -9,7 +9,7 @@ CLAIMS = {
                 "encoding (Spec.V2.encode) and then reports exactly the encoded command/transport/addresses and exactly the encoded bytes; "
                 "table form C02.accept_iff_table. The model is compared with the real parser on all 65 536 control-byte pairs x "
                 "length/presence relations, every single-byte signature corruption and generated headers; an independent Python wire-format "
-                "oracle is evaluated on the implementation's outputs as well.",
+                "oracle is evaluated on the implementation's outputs as well. Added after the independent statement audit: decomposition_unique (the decomposition of an accepted input into encoded parts and trailer is unique).",
         "note": BASE_NOTE,
         "ref": "DESIGN.md 7 (C02)",
     },
@@ -21,20 +21,20 @@ CLAIMS["C11"] = {
             "and it is last (C11.error_last), at most n/3+1 items (C11.count_bound), exhausted after an error, and fuel irrelevance "
             "(the Rust loop has no bound). Correspondence: all strings over {0,1,2,3,255} up to length 7 (quick) / 9 (thorough), every "
             "truncation of well-formed sections, boundary lengths 0/1/255/256/65535, sections of accepted headers; a Python reference walk "
-            "is evaluated on the implementation's outputs.",
+            "is evaluated on the implementation's outputs. Audit additions: Iter.step (the iterator with its post-None state, transcribed from the Rust separately from next) with step_none_stable / step_none_forever / step_after_error, next_ok_at (each yielded item is its own encoding at the cursor, value shorter than 65536), header_tlvs_of_encode_partial / header_tlvs_unspec (which bytes are the section of an accepted header; empty for the unspecified family).",
     "note": BASE_NOTE, "ref": "DESIGN.md 7 (C11)",
 }
 CLAIMS["C14"] = {
     "text": "Theorems C14.views_partition / lengths / family / addresses_decode: for every accepted header (any input), address bytes ++ TLV bytes "
             "= payload, sizes and length field agree, family = wire nibble = family of the decoded value, and the decoded value is the big-endian "
             "decoding of the address view. Derived from C02.accept_iff. Correspondence on view fields of generated accepted headers, all valid "
-            "control pairs x payload sizes incl. 65535, borrowed and owned.",
+            "control pairs x payload sizes incl. 65535, borrowed and owned. Audit additions: split_point (the non-degenerate form of the partition: where the split lies), helpers (Header::is_empty, Addresses::is_empty, u16::from(AddressFamily)), nibbles.",
     "note": BASE_NOTE, "ref": "DESIGN.md 7 (C14)",
 }
 CLAIMS["C17"] = {
     "text": "Theorems C17.incomplete_exact, partial_exact, partial_completion, partial_progress (+ surplus): exact counts in Incomplete/Partial, "
             "completion with any bytes of the missing length succeeds, fewer bytes update the counts. Correspondence on every cut of generated "
-            "headers, all valid control pairs x declared lengths, completions with random bytes.",
+            "headers, all valid control pairs x declared lengths, completions with random bytes. Audit additions: truncated_exact (forward form: every cut of an accepted header gives exactly Incomplete(n) / Partial(n-16, L)), partial_iff, incomplete_iff (exact characterisations of the two incomplete results).",
     "note": BASE_NOTE, "ref": "DESIGN.md 7 (C17)",
 }
 
@@ -42,31 +42,31 @@ CLAIMS["C07"] = {
     "text": "Theorems C07.build_is_encoding (for every command, transport, address value and TLV list within 65535 bytes the builder model returns "
             "exactly Spec.V2.encode of them), parses_back (from C02), tlvs_back (from C11) and type_codes (code tables = protocol tables). "
             "Correspondence: generated programs of that shape incl. payload totals of exactly 65535, each parsed back by the real parser; the "
-            "code table compared exhaustively through the public API.",
+            "code table compared exhaustively through the public API. Audit additions: roundtrip (single end-to-end statement: the builder's own output, with any trailer, parses back to the same command, transport, addresses, bytes and - family specified - TLV list), variants for (type, bytes) pairs, TLV structs and one batch, roundtrip_of_body for any call history with that body, named_type_codes_on_bytes.",
     "note": BASE_NOTE, "ref": "DESIGN.md 7 (C07)",
 }
 CLAIMS["C09"] = {
     "text": "Theorems C09.length_field (any constructor, any call history: on success the field is the explicit length in force, else the actual "
             "payload size), overflow_fails, oversized_value_fails; by induction over call histories with the invariant V2.Shape. "
-            "Correspondence: random programs, set_length inserted at every position, totals steered to 65534..65537 and to the writer guard.",
+            "Correspondence: random programs, set_length inserted at every position, totals steered to 65534..65537 and to the writer guard. Audit additions: per-call failure (oversized_call_fails, oversized_tlv_call_fails: the offending call itself returns the error; call_fails_iff: exact per-call condition), overflow_fails_direct, build_only_failure (build fails iff no explicit length is in force and the payload exceeds 65535).",
     "note": BASE_NOTE + " Model includes the D7 repair (fix: commit in /repo).", "ref": "DESIGN.md 7 (C09), 8 (D7)",
 }
 CLAIMS["C10"] = {
     "text": "Theorems C10.output_is_reference(_with) (a successful history returns Spec.Builder.reference: signature, control bytes, length, "
             "construction-time address block, payload encodings in call order), reserve_irrelevant, batch_irrelevant (bisimulation V2.Sim), "
-            "tlv_pair_same. Correspondence: random programs each with five metamorphic variants, boundary totals.",
+            "tlv_pair_same. Correspondence: random programs each with five metamorphic variants, boundary totals. reserve_capacity is a no-op of the model for every n; the real crate panics ('capacity overflow') or aborts in the allocator for hints near isize::MAX - assumption A3 (allocation succeeds), recorded above reserve_irrelevant.",
     "note": BASE_NOTE, "ref": "DESIGN.md 7 (C10)",
 }
 CLAIMS["C13"] = {
     "text": "Theorems C13.rebuild_raw, rebuild_items, rebuild_from_addresses: for every accepted header (any input) the builder fed with the "
             "header's own views returns exactly the header bytes. From C02 + C14 + C11 + builder success lemmas. Correspondence: op `rb` "
-            "(parse, rebuild four ways through the real views and builder) on generated headers incl. malformed sections and 65535-byte payloads.",
+            "(parse, rebuild four ways through the real views and builder) on generated headers incl. malformed sections and 65535-byte payloads. Additions: augment (decoded parts re-emitted with further TLVs appended parse back to the same endpoints and old items ++ new, the forwarding/augmenting proxy of the property text; observed on the implementation by the aug field of op rb), rebuild_new_addresses, rebuild_from_addresses_slice.",
     "note": BASE_NOTE, "ref": "DESIGN.md 7 (C13)",
 }
 CLAIMS["C20"] = {
     "text": "Theorems C20.write_appends_encoding, success_condition (exact), success_below_limit, oversize_refused, failure_keeps_prefix, "
             "to_bytes, int_big_endian, tlv_pair_same for every value of the Payload type and every writer content. Correspondence: op `wr` over "
-            "all integer widths at min/max/random, all address kinds, value lengths {0,1,255,256,65535,65536}, writers pre-filled to the guard.",
+            "all integer widths at min/max/random, all address kinds, value lengths {0,1,255,256,65535,65536}, writers pre-filled to the guard. Audit additions: the integer type table is now part of the model (IntTy, width, signedness, Payload.ofInt; used by the driver) with int_signed / int_twos / width_table (two's complement big-endian at the natural width for all twelve types), partial_write_exact (exactly which pieces a failing write leaves behind).",
     "note": BASE_NOTE + " 'A writer below its size limit' is read as: the guard does not trip during the write (DESIGN.md 7, C20).",
     "ref": "DESIGN.md 7 (C20)",
 }
@@ -78,7 +78,7 @@ CLAIMS["C01"] = {
             "exactly h.addresses. Built from V1.parseHeader_ok_iff, StdNet.parseIpv4_iff, V1.parsePort_iff and StdNet.parseIpv6_iff_text (the model of "
             "Ipv6Addr::from_str accepts exactly the RFC 4291 forms). Correspondence: grammar-directed lines with distinct source/destination, single-element "
             "mutations, every line ending, every prefix, all token strings up to 4 (quick) / 5 (thorough) tokens, lengths around 107, both entry points; an "
-            "independent Python grammar oracle is evaluated on the implementation's outputs; std parsers compared token-exhaustively.",
+            "independent Python grammar oracle is evaluated on the implementation's outputs; std parsers compared token-exhaustively. Audit additions: fromStrHeader_accept_iff / fromStrAddresses_accept_iff with the RFC 4291 grammar, ipv6Text_functional, bytesP_accept_iff / strP_accept_iff (the same characterisation for the panic-aware layer the driver runs).",
     "note": BASE_NOTE + " Model includes the repairs D2 D3 D4 (fix: commits).", "ref": "DESIGN.md 7 (C01), 8",
 }
 CLAIMS["C03"] = {
@@ -88,24 +88,24 @@ CLAIMS["C03"] = {
             "cursor progress. The driver runs the panic-aware layer, so the harness (catch_unwind per call) compares panic behaviour. Correspondence on all v1/v2/TLV "
             "generators incl. multi-byte characters adjacent to CR, plus an in-process sweep over all token strings up to 5/6 tokens. PARTIAL: that the Rust loops "
             "terminate is observed (step cap), not proved. Both configurations: the theorem shows no checked subtraction underflows, and every operation is "
-            "evaluated through two builds of the harness (overflow-checks on and off) whose outputs must be identical.",
+            "evaluated through two builds of the harness (overflow-checks on and off) whose outputs must be identical. Audit additions: v2_display_no_panic (Display goes through length()), tlvs_no_panic / tlv_run_no_panic (whole iteration in the panic-aware layer), tlv_ends (next is None after at most n/3+1 steps, not a fuel artefact), auto_accessors(_no_panic), fromStrHeader_no_panic / fromStrAddresses_no_panic, sums_bounded / sums_no_overflow (every usize addition of the parsers and the iterator is bounded by input length + 65551: assumption A3 made explicit).",
     "note": BASE_NOTE, "ref": "DESIGN.md 7 (C03), 11",
 }
 CLAIMS["C04"] = {
     "text": "Theorems C04.v2_trailing, v1_bytes_trailing, v1_str_trailing, auto_trailing, consumed_length: an accepted input followed by any bytes, and the "
             "reported header alone, are accepted with the identical result; the header is a prefix of the input of length firstCR+2 (v1) / 16+declared length (v2). "
-            "Correspondence: accepted headers x 13 trailers x 4 entry points; in-process sweep.",
+            "Correspondence: accepted headers x 13 trailers x 4 entry points; in-process sweep. Audit additions: result_is_function_of_header(_str) (bytes after the header are never interpreted, literally), v1_line_through_lf, auto_trailing'.",
     "note": BASE_NOTE, "ref": "DESIGN.md 7 (C04)",
 }
 CLAIMS["C05"] = {
     "text": "Theorems C05.v2_prefix_incomplete, v1_bytes/str_prefix_incomplete (US-ASCII lines), auto_prefix_incomplete, flags, and the history forms "
             "streaming_v2 / streaming_v1 (a receiver re-parsing its growing buffer ends with the one-shot result for every split of the stream into reads, by "
-            "induction over the read list). Correspondence: every cut of generated accepted headers through all entry points; in-process sweep.",
+            "induction over the read list). Correspondence: every cut of generated accepted headers through all entry points; in-process sweep. Audit additions: v1_str_prefix_incomplete' (no ASCII hypothesis for the text entry point), v1_bytes_prefix_incomplete_iff (for the byte entry point a cut is incomplete iff the prefix is valid UTF-8; cut inside a character it is the terminal InvalidUtf8: ascii_restriction_needed shows the property's US-ASCII restriction is necessary), fromStr variants, streaming_v1_str.",
     "note": BASE_NOTE + " Model includes the repairs D5 and D2.", "ref": "DESIGN.md 7 (C05)",
 }
 CLAIMS["C06"] = {
     "text": "Theorems C06.auto_def, tag_v1, tag_v2, accept_iff, never_both, incomplete_iff, terminal_otherwise, possible_v2_never_v1 for every byte string. "
-            "Correspondence: auto / v1 / v2 on the same input over the union of the v1 and v2 generators plus mixtures and every signature prefix.",
+            "Correspondence: auto / v1 / v2 on the same input over the union of the v1 and v2 generators plus mixtures and every signature prefix. Audit addition: v2_incomplete_not_always_extensible ('possible v2 header' means 'v2 reports incomplete', not 'some extension is accepted').",
     "note": BASE_NOTE, "ref": "DESIGN.md 7 (C06)",
 }
 CLAIMS["C08"] = {
@@ -113,33 +113,33 @@ CLAIMS["C08"] = {
             "format_injective, display_is_header for EVERY address value (Unknown, all IPv4 pairs, all 2^128 x 2^128 IPv6 pairs, all ports), from "
             "StdNet.parseIpv6_displayIpv6 (IPv6 Display/from_str round trip incl. IPv4-mapped and every :: compression), parseIpv4_iff, parsePort_iff. "
             "Correspondence: op rt1 (format, then parse back four ways, on the real crate) over all 256 zero-run patterns x fillers, ports, random pairs; std Display "
-            "and from_str compared with the model exhaustively on ports / token-exhaustively on addresses.",
+            "and from_str compared with the model exhaustively on ports / token-exhaustively on addresses. Audit additions: format_is_line_text (the formatted line is a line of the RFC 4291 grammar), FromStr trailer variants, displayIpv6_is_text.",
     "note": BASE_NOTE, "ref": "DESIGN.md 7 (C08)",
 }
 CLAIMS["C12"] = {
     "text": "Theorems C12.v2_signature/version/command/family/transport/length (+ terminal) for Spec.V2.encode with one element replaced, general forms V2.blame_*; "
             "C12.v1_keyword/protocol/source_address/destination_address/source_port/destination_port/suffix/limit_and_utf8 (V1.Blame.G1..G11) for a v1 line with one "
             "SP/CR-free element replaced, at parse_header and at both entry points, all terminal, also through auto-detection. Correspondence: mutation table x "
-            "well-formed lines, all invalid nibbles x valid control pairs, too-small lengths, altered signature bytes.",
+            "well-formed lines, all invalid nibbles x valid control pairs, too-small lengths, altered signature bytes. Audit additions: v2_corruptions_auto / v2_gate_auto / v2_signature_auto(_kind) (every v2 corruption is rejected finally through auto-detection; the error kind there is the text parser's InvalidPrefix / InvalidUtf8 - C06 pins that auto hands a terminally failed v2 input to the text parser, so the element is named at the v2 entry point only), v1_protocol_short (corrupted UNKNOWN / short lines), grammar-level restatements (*_spec: invalidity stated with Spec.V1.Ipv4Text / Ipv6Text / PortText instead of the model parsers), other_family lemmas, v1_str_too_long / v1_str_not_boundary, port_payload_table.",
     "note": BASE_NOTE + " Model includes the repairs D4 and D6.", "ref": "DESIGN.md 7 (C12)",
 }
 CLAIMS["C15"] = {
     "text": "Theorems C15.protocol_matches, reassemble, reassemble_sep, addressesStr_cases, display_is_header, addressesStr_no_panic for every accepted v1 header "
-            "(any input). Correspondence: view fields of accepted headers incl. UNKNOWN lines with empty/long/multi-space/non-ASCII text.",
+            "(any input). Correspondence: view fields of accepted headers incl. UNKNOWN lines with empty/long/multi-space/non-ASCII text. Audit additions: sep_iff, sep_nil_iff, sep_exclusive (which of the two re-assemblies applies).",
     "note": BASE_NOTE, "ref": "DESIGN.md 7 (C15)",
 }
 CLAIMS["C16"] = {
     "text": "Theorems C16.entry_points_agree, entry_points_agree_too_long, mid_char_all_errors (every valid UTF-8 string; from Utf8.valid_take_iff_boundary), "
             "owned_equal. PARTIAL: 'remains valid after the input buffer is overwritten or dropped' is a memory-safety fact outside the model (ownership is erased); "
             "it is observed by the harness (buffer overwritten with 0xAA and dropped before comparing) on every accepted header and TLV. Correspondence: four entry "
-            "points on every valid-UTF-8 input of the v1 pool incl. multi-byte characters on both sides of the CR; in-process sweep.",
+            "points on every valid-UTF-8 input of the v1 pool incl. multi-byte characters on both sides of the CR; in-process sweep. Audit additions: entry_points (the packaged disjunction of the property text), entry_points_mid_char_iff, entry_points_exclusive.",
     "note": BASE_NOTE + " Model includes the repair D1.", "ref": "DESIGN.md 7 (C16), 11",
 }
 CLAIMS["C18"] = {
     "text": "Theorems C18.frozen_complete_bytes / frozen_complete_str (every frozen input yields a success or terminal error), frozen_stable_bytes (after the first "
             "CR + 1 byte no continuation changes the result), frozen_long_bytes; core V1.parseHeader_terminated accounts for every incomplete return site. "
-            "Correspondence: every frozen input of the v1 pool and token strings; in-process sweep over all token strings up to 5/6 tokens.",
-    "note": BASE_NOTE + " Model includes the repair D6.", "ref": "DESIGN.md 7 (C18)",
+            "Correspondence: every frozen input of the v1 pool and token strings; in-process sweep over all token strings up to 5/6 tokens. Audit additions: complete_at_108 / complete_at_108_str / complete_at_108_auto (from 108 bytes on every v1 verdict is final), sharp_107 (the 107-byte input 'PROXY UNKNOWN aaa...<CR>' is still incomplete, and incomplete_ge_107: the ONLY inputs of >= 107 bytes still incomplete are the 107-byte ones whose first CR is the last byte), frozen_stable_str, frozen_long_bytes_cases / frozen_long_str.",
+    "note": BASE_NOTE + " Model includes the repair D6." + " The property's premise (first CR + 1 byte, or 107 bytes without CR) is what is required and checked; its closing remark 'never more than 107 bytes' is off by one in exactly one corner (107 bytes ending in the first CR need the 108th byte), see DESIGN.md 14.8.", "ref": "DESIGN.md 7 (C18)",
 }
 CLAIMS["C19"] = {
     "text": "Theorems C19.* (field equalities for every constructor and conversion, v1/v2 agreement); immediate in the model — the assurance is the "
